@@ -4,6 +4,7 @@
 -/
 import J2M.Sem
 import Batteries.Data.List.Basic
+import J2M.Proofs.GenEnv
 namespace J2M
 
 theorem Except.bind_ok_iff {ε α β} (x : Except ε α) (f : α → Except ε β) (b : β) :
@@ -258,7 +259,6 @@ theorem optimize_obj {cfg e fuel fs t} (h : optimize cfg e fuel (.obj fs) = .ok 
     exact ⟨n, fs', rfl, h2.symm, hk, hr⟩
 
 /-- the environment `generate` uses for `==` -/
-def genEnv (o : GenOracles) : EqEnv := ⟨o.str, fun i => "Model#" ++ i, fun _ => none, 1000000⟩
 
 theorem generate_ok {cfg o samples t} (h : generate cfg o samples = .ok t) :
     ∃ sets fields fs, samples.mapM (convert cfg o) = .ok sets ∧
